@@ -420,9 +420,9 @@ func max64(a, b int64) int64 {
 
 func generate(out *kit.Out, f kit.Flags) {
 	r := kit.NewRand(f.Seed)
-	nTask := 6
+	nTask := 12
 	if f.Tier == "thorough" {
-		nTask = 40 + f.N/25
+		nTask = 60 + f.N/100
 	}
 	if v, ok := f.Extra["tasks"]; ok {
 		nTask = int(atoi(v))
